@@ -161,3 +161,39 @@ def _scale(x, c):
     if isinstance(x, tuple):
         return tuple(_scale(v, c) for v in x)
     return x * c + 1
+
+
+# ---------------------------------------------------------------------------------------------------
+# whole agents: Mutations.mutation -> architecture_mutate -> reinit_from_mutated of the shared (target) networks
+def build_agent(algo):
+    from agilerl.algorithms import CQN, DDPG, DQN, PPO, TD3
+    net = {"encoder_config": dict(ENC_MLP), "head_config": dict(HEAD), **LAT}
+    netimg = {"encoder_config": dict(ENC_CNN), "head_config": dict(HEAD), **LAT}
+    if algo == "dqn":
+        return DQN(VEC, spaces.Discrete(3), net_config=net)
+    if algo == "dqn_img":
+        return DQN(IMG, spaces.Discrete(2), net_config=netimg)
+    if algo == "cqn":
+        return CQN(VEC, spaces.Discrete(3), net_config=net)
+    if algo == "ddpg":
+        return DDPG(VEC, spaces.Box(-1, 1, (2,)), net_config=net)
+    if algo == "ddpg_unshared":
+        return DDPG(VEC, spaces.Box(-1, 1, (2,)), net_config=net, share_encoders=False)
+    if algo == "td3":
+        return TD3(VEC, spaces.Box(-1, 1, (2,)), net_config=net)
+    if algo == "ppo":
+        return PPO(VEC, spaces.Discrete(3), net_config=net)
+    raise ValueError(algo)
+
+
+AGENTS = ["dqn", "dqn_img", "cqn", "ddpg", "ddpg_unshared", "td3", "ppo"]
+
+
+def agent_groups(agent):
+    """[(eval attribute, [shared attributes])] from the algorithm's own registry"""
+    out = []
+    for g in agent.registry.groups:
+        sh = g.shared
+        sh = [] if sh is None else ([sh] if isinstance(sh, str) else list(sh))
+        out.append((g.eval, sh))
+    return out
